@@ -1,5 +1,5 @@
 (* C05 -- Searchers are immutable snapshots; readers only ever see whole commits. *)
-From TV Require Import Base.Prelude Storage.Crash Storage.CrashProofs Storage.ReaderGC Storage.ReaderGCProofs.
+From TV Require Import Base.Prelude Storage.Crash Storage.CrashProofs Storage.ReaderGC Storage.ReaderGCProofs Storage.ReloadStore Storage.ReloadStoreProofs.
 Local Open Scope N_scope.
 
 (* For every interleaving (trace of any length, any number of readers, GC runs and publications)
@@ -44,5 +44,27 @@ Theorem C05_gc_during_reload_refuted :
   rmonitor t = false /\ opens_ok t = false.
 Proof. vm_compute. split; reflexivity. Qed.
 
+(* ---- one IndexReader shared by several threads (the watcher thread and the user, or several users) ---- *)
+(* C05_monotone above is about the generations a reload READS.  What the reader HANDS OUT is what reload() stores
+   afterwards, outside META_LOCK.  With reload() serialized (RELOAD_SERIALIZED, regenerated from the source): for every
+   interleaving of commits, reloads pre-empted anywhere between loading and storing, and searcher() calls, the
+   generations handed out (newest first) never increase towards the past -- the reader never moves back -- and the
+   stored generation is always a published one. *)
+Theorem C05_shared_reader_never_moves_back : forall evs, nonincreasing (rl_looks (rlrun evs)).
+Proof. exact reader_never_moves_back. Qed.
+Theorem C05_serialized_reader_never_moves_back : forall evs,
+  nonincreasing (rl_looks (rlrun_gen true evs)) /\ rl_stored (rlrun_gen true evs) <= rl_cur (rlrun_gen true evs).
+Proof. exact serialized_reader_never_moves_back. Qed.
+(* a reload nobody interferes with shows the latest commit *)
+Theorem C05_quiet_reload_shows_latest : forall evs t,
+  rl_paused (rlrun evs) = [] -> rl_stored (rlstep (rlrun evs) (Begin t false)) = rl_cur (rlrun evs).
+Proof. exact quiet_reload_shows_latest. Qed.
+(* F051 (fixed in /repo): without the lock a pre-empted reload overwrites a more recent one -- the reader shows
+   generation 1, then generation 0 *)
+Theorem C05_unserialized_reload_moves_back :
+  rl_observed (rlrun_gen false [Begin 1 true; Publish; Begin 2 false; Look; Resume 1; Look]) = [1; 0].
+Proof. exact unserialized_reload_moves_back. Qed.
+
 Print Assumptions C05_reload_opens_succeed.
+Print Assumptions C05_shared_reader_never_moves_back.
 Print Assumptions C05_monotone.
